@@ -189,14 +189,14 @@ func buildGenesis(env EnvCfg) app.GenesisState {
 	pos.Params.ServicerStakeWeightCeiling = 2000000
 	pos.Params.ServicerStakeWeightMultiplier = sdk.NewDec(1)
 	pos.Params.ServicerStakeFloorMultiplierExponent = sdk.NewDec(1)
-	if env.Genesis == "legacy-nodes" {
+	if strings.Contains(env.Genesis, "legacy-nodes") {
 		pos.Validators = append(pos.Validators,
 			nodesTypes.Validator{Address: caddr("N1"), PublicKey: ckey("N1").PublicKey(), Status: sdk.Staked, Chains: []string{"0001"}, ServiceURL: "https://n1.example:443", StakedTokens: sdk.NewInt(stakeN1), OutputAddress: caddr("O1")},
 			nodesTypes.Validator{Address: caddr("N2"), PublicKey: ckey("N2").PublicKey(), Status: sdk.Staked, Chains: []string{"0001", "0002"}, ServiceURL: "https://n2.example:443", StakedTokens: sdk.NewInt(stakeN2), OutputAddress: caddr("N2"),
 				RewardDelegators: map[string]uint32{caddr("R1").String(): 10, caddr("R2").String(): 33}},
 		)
 	}
-	if env.Genesis == "custodial-nodes" {
+	if strings.Contains(env.Genesis, "custodial-nodes") {
 		// nodes staked before the non-custodial upgrade: no output address on record
 		pos.Validators = append(pos.Validators,
 			nodesTypes.Validator{Address: caddr("N1"), PublicKey: ckey("N1").PublicKey(), Status: sdk.Staked, Chains: []string{"0001"}, ServiceURL: "https://n1.example:443", StakedTokens: sdk.NewInt(stakeN1)},
@@ -233,6 +233,13 @@ func buildGenesis(env EnvCfg) app.GenesisState {
 	}
 	add("A3", balSmall, true)
 	au.Supply = sdk.NewCoins(sdk.NewCoin(sdk.DefaultStakeDenom, sdk.NewInt(total)))
+	if strings.Contains(env.Genesis, "default-supply") {
+		// no explicit supply (InitGenesis derives it from the accounts) and accounts without coins among the funded ones
+		au.Supply = nil
+		for i := 0; i < 6; i++ {
+			au.Accounts = append(au.Accounts, &auth.BaseAccount{Address: caddr(fmt.Sprintf("Z%d", i)), Coins: sdk.Coins{}})
+		}
+	}
 	gen[auth.ModuleName] = cdc.MustMarshalJSON(au)
 	// pocketcore
 	var pc pocketTypes.GenesisState
@@ -457,7 +464,7 @@ type replica struct {
 	time    time.Time
 	lastID  tmtypes.BlockID
 	appHash []byte
-	valset  map[string]int64 // consensus set folded from InitChain/EndBlock updates: hex(pubkey) -> power
+	valset  map[string]int64           // consensus set folded from InitChain/EndBlock updates: hex(pubkey) -> power
 	valHist map[int64]map[string]int64 // the folded set as it stood after each block (evidence carries the power at the infraction height)
 	valAddr map[string]string
 	results []BlockRes
@@ -467,7 +474,8 @@ type replica struct {
 	mon     map[string]map[string]interface{}
 	args    map[string]string
 	hosted  *pocketTypes.HostedBlockchains
-	inBlock bool // between BeginBlock and Commit of the real application
+	inBlock bool             // between BeginBlock and Commit of the real application
+	digests map[int64]string // digest of the complete committed store content after each block
 }
 
 func newReplica(env EnvCfg) *replica {
@@ -707,6 +715,10 @@ func (r *replica) runBlock(b BlockSpec) BlockRes {
 		snap[k] = v
 	}
 	r.valHist[h] = snap
+	if r.digests == nil {
+		r.digests = map[int64]string{}
+	}
+	r.digests[h] = r.storeDigest(r.app.Store())
 	for _, p := range b.PostChain {
 		br.Probes = append(br.Probes, "post:"+r.runProbe(p))
 	}
@@ -722,6 +734,29 @@ func (r *replica) ctxNow() sdk.Context {
 		hdr = tmtypes.TM2PB.Header(&meta.Header)
 	}
 	return sdk.NewContext(r.app.Store(), hdr, false, bufLogger{r.logbuf}).WithBlockStore(r.bs).WithAppVersion(app.AppVersion)
+}
+
+// storeDigest: SHA-256 over the raw content (keys and values) of every persistent substore of a multistore view.
+func (r *replica) storeDigest(ms sdk.MultiStore) string {
+	h := sha256.New()
+	var names []string
+	for n := range r.app.Keys {
+		names = append(names, n)
+	}
+	sort.Strings(names)
+	for _, n := range names {
+		st := ms.GetKVStore(r.app.Keys[n])
+		it, _ := st.Iterator(nil, nil)
+		fmt.Fprintf(h, "[%s]", n)
+		for ; it.Valid(); it.Next() {
+			h.Write(it.Key())
+			h.Write([]byte{0})
+			h.Write(it.Value())
+			h.Write([]byte{1})
+		}
+		it.Close()
+	}
+	return hex.EncodeToString(h.Sum(nil)[:12])
 }
 
 // stateKey: SHA-256 over the raw content of every IAVL substore (keys and values, not node versions),
